@@ -296,7 +296,65 @@ def s09_generated(ctx):
     return res
 
 
-STREAMS = [s09_frames, s09_generated]
+def s09_cli(ctx):
+    """the same contract through the command line: `fractopo tracevalidate` writes the validated frame; rows, order and attribute values (a text column with missing
+    values included) must be those of the input file"""
+    import_fractopo()
+    import shutil
+    import tempfile
+    from pathlib import Path
+
+    import geopandas as gpd
+    from typer.testing import CliRunner
+
+    from fractopo.cli import APP
+    from harness.common import rng_for
+    from harness.streams import c19
+
+    res = StreamResult("S09-cli", rule="gadget frames (valid and planted-defect traces, a mergeable multi-part line) with an id, a numeric and a text attribute column that is MISSING in "
+                       "some rows, written as GeoJSON / GPKG; `fractopo tracevalidate` with and without --allow-fix: the written file has the input's rows in order with the same "
+                       "attribute values (missing stays missing) and one error column; non-trivial = all")
+    rng = rng_for(ctx.seed, "S09cli")
+    runner = CliRunner()
+    tmp = Path(tempfile.mkdtemp(prefix="fv_c09_", dir="/var/tmp"))
+    try:
+        for k in range(budget(ctx.tier, 6, 40)):
+            d = tmp / f"c{k}"
+            d.mkdir()
+            driver = "GeoJSON" if k % 2 else "GPKG"
+            tp, ap, names = c19.build_inputs(rng, d, driver, k % 3 != 0, "v")
+            op = d / f"out{c19.EXT[driver]}"
+            fix = k % 2 == 0
+            r = runner.invoke(APP, ["tracevalidate", str(tp), str(ap), "--output", str(op), "--no-summary", "--allow-fix" if fix else "--no-allow-fix"])
+            res.evaluations += 1
+            res.nontrivial += 1
+            case = {"stream": "S09-cli", "driver": driver, "gadgets": names, "allow_fix": fix}
+            if r.exit_code != 0 or not op.exists():
+                res.disagreements.append(Disagreement("S09-cli", case, "a written file", f"exit {r.exit_code}: {str(r.exception)[:160]}", True, "tracevalidate failed"))
+                continue
+            src, out = gpd.read_file(tp), gpd.read_file(op)
+            miss = lambda v: v is None or v != v  # noqa: E731
+            problems = []
+            if len(out) != len(src):
+                problems.append(f"{len(out)} rows written for {len(src)} input rows")
+            else:
+                for col in ("uid", "val", "note"):
+                    if col not in out.columns:
+                        problems.append(f"attribute column {col} is missing from the output")
+                    elif not all((miss(a) and miss(b)) or a == b for a, b in zip(out[col], src[col])):
+                        problems.append(f"attribute column {col}: {list(out[col])[:4]} written for {list(src[col])[:4]}")
+                extra = [c for c in out.columns if c not in src.columns and c not in ("VALIDATION_ERRORS", "VALIDATION")]
+                if extra:
+                    problems.append(f"columns {extra} beyond the input's and the error column")
+            if problems:
+                res.disagreements.append(Disagreement("S09-cli", case, "the input's rows and attribute values", problems, True, "; ".join(problems)[:400]))
+        res.samples = [{"args": "tracevalidate <traces> <area> --output <out>"}]
+    finally:
+        shutil.rmtree(tmp, ignore_errors=True)
+    return res
+
+
+STREAMS = [s09_frames, s09_cli, s09_generated]
 
 
 def _rebuild(case):
@@ -320,6 +378,9 @@ def replay(ctx, stream, case):
     import_fractopo()
     if stream == "S09-generated":
         r = s09_generated(ctx)
+        return r.disagreements[0] if r.disagreements else None
+    if stream == "S09-cli":
+        r = s09_cli(ctx)
         return r.disagreements[0] if r.disagreements else None
     gdf = _rebuild(case)
     r = worker((gdf, case["opts"]))
